@@ -317,7 +317,7 @@ theorem parseInvoke_spec (s : Src) (w : s.wf) :
 
 theorem parseDeploy_spec (s : Src) (w : s.wf) :
     SpecAt parseDeploy s (fun pl s' => seg s s' = serPayload pl ∧
-      ((∃ c v a b d e f, pl = .deploy c v a b d e f) ∧ PlWf pl)) := by
+      ((∃ c v a b d e f, pl = .deploy c v a b d e f) ∧ PlWf pl ∧ wfPayload 0xd0 pl = true)) := by
   unfold parseDeploy
   apply enc_step (Adv.refl w) (seg_self s) (rVarBytes_spec2 true s w)
   intro code s1 h1 adv1 acc1
@@ -334,8 +334,9 @@ theorem parseDeploy_spec (s : Src) (w : s.wf) :
   apply enc_step adv6 acc6 (rVarBytes_spec2 false s6 (adv6.wf w))
   intro desc s7 h7 adv7 acc7
   split
-  · apply spec_pure (adv7.wf w)
-    refine ⟨?_, ⟨_, _, _, _, _, _, _, rfl⟩, h1, h3, h4, h5, h6, h7⟩
+  · rename_i hval
+    apply spec_pure (adv7.wf w)
+    refine ⟨?_, ⟨_, _, _, _, _, _, _, rfl⟩, ⟨h1, h3, h4, h5, h6, h7⟩, by simp [wfPayload, hval]⟩
     rw [acc7]
     simp [serPayload]
   · exact spec_fail
@@ -347,7 +348,7 @@ def PlKind (ty : UInt8) (pl : Payload) : Prop :=
 /-- what `deserializeOntUnsigned` guarantees about the fields it returns -/
 def WfU (u : TxU) : Prop :=
   u.version = 0 ∧ u.txType ≠ 0xd3 ∧ u.nonce < 256 ^ 4 ∧ u.gasPrice < 256 ^ 8 ∧ u.gasLimit < 256 ^ 8 ∧
-  u.payer.length = 20 ∧ PlKind u.txType u.payload ∧ PlWf u.payload
+  u.payer.length = 20 ∧ PlKind u.txType u.payload ∧ PlWf u.payload ∧ wfPayload u.txType u.payload = true
 
 theorem WfU.not_eip {u : TxU} (h : WfU u) (e : EipTx) : u.payload ≠ .eip e := by
   intro he
@@ -378,15 +379,16 @@ theorem parseOntUnsigned_spec (s : Src) (w : s.wf) :
   intro payer s6 hpayer adv6 acc6
   have hpl : SpecAt (if (ty == 0xd1 || ty == 0xd2) = true then parseInvoke
             else if (ty == 0xd0) = true then parseDeploy else fail .invalid) s6
-            (fun pl s' => seg s6 s' = serPayload pl ∧ (PlKind ty pl ∧ PlWf pl)) := by
+            (fun pl s' => seg s6 s' = serPayload pl ∧ (PlKind ty pl ∧ PlWf pl ∧ wfPayload ty pl = true)) := by
     split
     · rename_i hk
       have hk' : ty = 0xd1 ∨ ty = 0xd2 := by simpa using hk
-      exact spec_mono (parseInvoke_spec s6 (adv6.wf w)) (fun pl _ _ h => ⟨h.1, Or.inl ⟨hk', h.2.1⟩, h.2.2⟩)
+      exact spec_mono (parseInvoke_spec s6 (adv6.wf w)) (fun pl _ _ h => ⟨h.1, Or.inl ⟨hk', h.2.1⟩, h.2.2, by
+        obtain ⟨c, hc⟩ := h.2.1; subst hc; simpa [wfPayload] using hk⟩)
     · split
       · rename_i _ hk
         have hk' : ty = 0xd0 := by simpa using hk
-        exact spec_mono (parseDeploy_spec s6 (adv6.wf w)) (fun pl _ _ h => ⟨h.1, Or.inr ⟨hk', h.2.1⟩, h.2.2⟩)
+        exact spec_mono (parseDeploy_spec s6 (adv6.wf w)) (fun pl _ _ h => ⟨h.1, Or.inr ⟨hk', h.2.1⟩, h.2.2.1, by rw [hk']; exact h.2.2.2⟩)
       · exact spec_fail
   apply enc_step adv6 acc6 hpl
   intro pl s7 hkind adv7 acc7
@@ -399,7 +401,7 @@ theorem parseOntUnsigned_spec (s : Src) (w : s.wf) :
     apply spec_pure (adv8.wf w)
     have : attr = 0 := by simpa using hattr
     subst this
-    refine ⟨?_, by simpa using hver, by simpa using hty, hnonce, hgp, hgl, hpayer, hkind.1, hkind.2⟩
+    refine ⟨?_, by simpa using hver, by simpa using hty, hnonce, hgp, hgl, hpayer, hkind.1, hkind.2.1, hkind.2.2⟩
     rw [acc8]
     simp [serUnsigned, writeUintN]
 
@@ -828,8 +830,8 @@ theorem serPayload_inj_deploy (c c' : Bytes) (v v' : UInt8) (a a' b b' d d' e e'
 
 /-- the unsigned serialisation determines every unsigned field of a decoded Ontology-shape transaction -/
 theorem serUnsigned_inj (u v : TxU) (hu : WfU u) (hv : WfU v) (h : serUnsigned u = serUnsigned v) : u = v := by
-  obtain ⟨u1, u2, u3, u4, u5, u6, uk, uw⟩ := hu
-  obtain ⟨v1, v2, v3, v4, v5, v6, vk, vw⟩ := hv
+  obtain ⟨u1, u2, u3, u4, u5, u6, uk, uw, _⟩ := hu
+  obtain ⟨v1, v2, v3, v4, v5, v6, vk, vw, _⟩ := hv
   unfold serUnsigned writeUintN at h
   simp only [List.append_assoc, List.cons_append, List.nil_append] at h
   obtain ⟨e1, h⟩ := List.cons.inj h
